@@ -68,6 +68,45 @@ def _is_append_helper(eng, call):
     return alloc and body and last
 
 
+def _helper_stores(eng, m, rec, depth=2):
+    """(field, index text) for record stores made on behalf of m by private Model helpers it calls (`self._update_objval(k, ...)`): the helper's own index
+    expression is rewritten in terms of the caller's argument when it is one of the helper's parameters."""
+    from ..resolve import bind_call
+    out = []
+    if depth <= 0:
+        return out
+    for node in eng.prog.own_nodes(m):
+        if not isinstance(node, ast.Call):
+            continue
+        ci = eng.res.calls.get(id(node))
+        if ci is None or len(ci.targets) != 1:
+            continue
+        h = ci.targets[0]
+        if h.cls != "Model" or h.fid == m.fid or h.qualname.endswith(".__init__"):
+            continue
+        cs = eng.res.callers.get(h.fid, [])
+        if not (cs and all(c.caller.cls == "Model" for c in cs)):
+            continue
+        try:
+            bound = bind_call(node, h, True).params
+        except Exception:
+            bound = None
+        hself = h.posparams[0] if h.posparams else None
+        for n2 in eng.prog.own_nodes(h):
+            if not isinstance(n2, (ast.Assign, ast.AugAssign)):
+                continue
+            for t in (n2.targets if isinstance(n2, ast.Assign) else [n2.target]):
+                f = _written_field(t, hself)
+                if f in rec and isinstance(t, ast.Subscript):
+                    idx = t.slice.elts[0] if isinstance(t.slice, ast.Tuple) else t.slice
+                    itxt = ekey(idx)
+                    if isinstance(idx, ast.Name) and bound and isinstance(bound.get(idx.id), ast.AST):
+                        itxt = ekey(bound[idx.id])
+                    out.append((f, itxt))
+        out += _helper_stores(eng, h, rec, depth - 1)
+    return out
+
+
 def rule_parallel_arrays(eng, rep, rule="C17-1.per-point-arrays-move-together"):
     rec = record_fields(eng)
     if not rep.require_count(rule, "per-point record fields (written by change_point at index k)", len(rec), 5):
@@ -114,6 +153,11 @@ def rule_parallel_arrays(eng, rep, rule="C17-1.per-point-arrays-move-together"):
                     kinds.setdefault("alloc", {})[f] = itxt
                 else:
                     kinds.setdefault("store", {})[f] = itxt
+        callers = eng.res.callers.get(m.fid, [])
+        if callers and all(ci.caller.cls == "Model" for ci in callers) and set(kinds) <= {"store"}:
+            continue          # a private step (e.g. an extracted `_update_objval(k, ..)`): its stores are counted in the methods that call it, below
+        for (f, itxt) in _helper_stores(eng, m, rec):
+            kinds.setdefault("store", {}).setdefault(f, itxt)
         if not kinds or set(kinds) <= {"alloc", "transform"}:
             continue
         nmeth += 1
